@@ -85,3 +85,15 @@ func init() {
 		QuickBudgetS:     400, ThoroughBudgetS: 7200,
 	}
 }
+
+func init() {
+	propMeta["C09"] = Meta{
+		Level: "exploration",
+		Rule: "Each evaluation is one seeded two-party run of real OT / multiplication code in lock-step (real two-party session setup round by round, every message CBOR-encoded, optionally altered, and decoded on each hop): batch size, block length, choice-bit pattern (all-zero, all-one, alternating, random), curve, multiplication inputs (0, 1, q-1, random) are drawn from the seed; the honest pass is judged by the correlation oracle (reference field arithmetic for c+d=a*b); three of four evaluations add a second pass with one alteration (bit flip, swap of two leaves, value of the same position from an independent run, truncation) of one leaf of one message, biased to the check-feeding messages (extension round 1; multiplier last message). Non-trivial: every evaluation (each has a distinct generated configuration and, mostly, a fault). Distinct = hash of (workload, configuration, alteration).",
+		Assumptions: []string{"strict ping-pong protocols: no schedule to vary, so the simulated faults are wire alterations only", "alterations of messages that do not feed the named consistency checks are judged for safety only (no panic); vacuous alterations (decode to the identical message) are not required to be rejected"},
+		Real: []string{"pkg/ot/base/ecbbot, pkg/ot/base/vsot, pkg/ot/extension/softspoken", "pkg/mpc/rvole/bbot, pkg/mpc/rvole/softspoken", "pkg/mpc/session participant (round-by-round)", "pkg/base/serde"},
+		Stub: []string{"transport (lock-step hop: encode, alter, decode)", "random sources (sim.Rand)", "orchestrator (harness)"},
+		ExpectedProbes: []string{"honest_completed", "alteration_rejected_by_other_side", "choices_all-zero", "choices_all-one", "choices_alternating", "choices_random", "op_flip", "op_set", "op_swapleaf", "safety_only_alteration"},
+		QuickBudgetS: 240, ThoroughBudgetS: 1500,
+	}
+}
